@@ -42,4 +42,17 @@ def PTables.wf {np ns nt : Nat} (T : PTables np ns nt) : Bool :=
   allFin nt (fun t => allFin ns (fun k => T.s2p (T.perms t k) == T.s2p k)) &&
   allFin ns (fun k => countFin nt (fun t => T.perms t (T.s2p k) == k) == 1)
 
+/-- a smaller certificate: identity, closure, sublattices kept, **freeness at the representatives** (two
+different translations never send a representative to the same atom) and the count `n_s = n_t·n_p`.
+Simple transitivity then follows by counting (`Props/C04.lean: translations_simply_transitive_small`). -/
+def PTables.wfSmall {np ns nt : Nat} (T : PTables np ns nt) : Bool :=
+  ns == nt * np &&
+  allFin np (fun j => T.s2p (T.p2s j) == T.p2s j) &&
+  allFin ns (fun k => anyFin np (fun j => T.s2p k == T.p2s j)) &&
+  allFin np (fun j => allFin np (fun j' => !(T.p2s j == T.p2s j') || j == j')) &&
+  anyFin nt (fun t => allFin ns (fun i => T.perms t i == i)) &&
+  allFin nt (fun t => allFin nt (fun t' => anyFin nt (fun t'' => allFin ns (fun i => T.perms t'' i == T.perms t (T.perms t' i))))) &&
+  allFin nt (fun t => allFin nt (fun t' => allFin np (fun j => !(T.perms t (T.p2s j) == T.perms t' (T.p2s j)) || t == t'))) &&
+  allFin nt (fun t => allFin ns (fun k => T.s2p (T.perms t k) == T.s2p k))
+
 end PhononModel.CellTables
